@@ -1,6 +1,8 @@
 package frost
 
 import (
+	"fmt"
+
 	"github.com/taurusgroup/multi-party-sig/internal/round"
 	"github.com/taurusgroup/multi-party-sig/pkg/math/curve"
 	"github.com/taurusgroup/multi-party-sig/pkg/party"
@@ -43,7 +45,8 @@ func EmptyConfig(group curve.Curve) *Config {
 // selfID is the identifier for the local party calling this function.
 //
 // This protocol corresponds to Figure 1 of the Frost paper:
-//   https://eprint.iacr.org/2020/852.pdf
+//
+//	https://eprint.iacr.org/2020/852.pdf
 func Keygen(group curve.Curve, selfID party.ID, participants []party.ID, threshold int) protocol.StartFunc {
 	return keygen.StartKeygenCommon(false, group, participants, threshold, selfID, nil, nil, nil)
 }
@@ -59,6 +62,9 @@ func KeygenTaproot(selfID party.ID, participants []party.ID, threshold int) prot
 
 // Refresh
 func Refresh(config *Config, participants []party.ID) protocol.StartFunc {
+	if err := validateRefresh(config.Validate(), participants, func(id party.ID) bool { _, ok := config.VerificationShares.Points[id]; return ok }); err != nil {
+		return failingStart(err)
+	}
 	return keygen.StartKeygenCommon(false, config.Curve(), participants, config.Threshold, config.ID, config.PrivateShare, config.PublicKey, config.VerificationShares.Points)
 }
 
@@ -68,6 +74,9 @@ func Refresh(config *Config, participants []party.ID) protocol.StartFunc {
 //
 // See: https://github.com/bitcoin/bips/blob/master/bip-0340.mediawiki#specification
 func RefreshTaproot(config *TaprootConfig, participants []party.ID) protocol.StartFunc {
+	if err := validateRefresh(config.Validate(), participants, func(id party.ID) bool { _, ok := config.VerificationShares[id]; return ok }); err != nil {
+		return failingStart(err)
+	}
 	publicKey, err := curve.Secp256k1{}.LiftX(config.PublicKey)
 	if err != nil {
 		return func([]byte) (round.Session, error) {
@@ -91,8 +100,8 @@ func RefreshTaproot(config *TaprootConfig, participants []party.ID) protocol.Sta
 // messageHash is the hash of the message a signature should be generated for.
 //
 // This protocol merges Figures 2 and 3 from the Frost paper:
-//   https://eprint.iacr.org/2020/852.pdf
 //
+//	https://eprint.iacr.org/2020/852.pdf
 //
 // We merge the pre-processing and signing protocols into a single signing protocol
 // which doesn't require any pre-processing.
@@ -111,6 +120,9 @@ func Sign(config *Config, signers []party.ID, messageHash []byte) protocol.Start
 //
 // See: https://github.com/bitcoin/bips/blob/master/bip-0340.mediawiki
 func SignTaproot(config *TaprootConfig, signers []party.ID, messageHash []byte) protocol.StartFunc {
+	if err := config.Validate(); err != nil {
+		return failingStart(err)
+	}
 	publicKey, err := curve.Secp256k1{}.LiftX(config.PublicKey)
 	if err != nil {
 		return func([]byte) (round.Session, error) {
@@ -129,4 +141,26 @@ func SignTaproot(config *TaprootConfig, signers []party.ID, messageHash []byte) 
 		VerificationShares: party.NewPointMap(genericVerificationShares),
 	}
 	return sign.StartSignCommon(true, normalResult, signers, messageHash)
+}
+
+// failingStart is a StartFunc that reports err: the start functions validate their arguments
+// before anything is dereferenced, and report problems when the session is created.
+func failingStart(err error) protocol.StartFunc {
+	return func([]byte) (round.Session, error) {
+		return nil, err
+	}
+}
+
+// validateRefresh checks the arguments of a refresh: a valid configuration, and participants
+// that all hold a share of the key being refreshed.
+func validateRefresh(configErr error, participants []party.ID, holdsShare func(party.ID) bool) error {
+	if configErr != nil {
+		return configErr
+	}
+	for _, id := range participants {
+		if !holdsShare(id) {
+			return fmt.Errorf("frost: participant %s holds no share of this key", id)
+		}
+	}
+	return nil
 }
